@@ -292,7 +292,7 @@ pub fn registry() -> Vec<Profile> {
             title: "forgery resistance",
             run: run_c01,
             required: &["accept_header", "accept_query", "tamper[method]", "tamper[path]", "tamper[query]", "tamper[header]", "tamper[body]", "tamper[date]", "tamper[signature]", "tamper[scope]", "tamper[access-key]", "tamper[splice]"],
-            rule: "seeded runs of the delivery world: 1-4 clients sign 1-4 requests (both carriers, S3/fold, tokens), each delivery receives 0-2 logical transformations from the full adversarial list (method/path/query/header/body/date/credential/signature/splice), replay, mis-delivery, key rotation at the key store and benign respelling; a case is non-trivial when at least one fault fired; distinct = distinct hash of (transformation kinds, reference verdict, library outcome kind, carrier, node options) per run Since round 3/4 of the seeded changes the adversarial list also has method letter case, space→tab in a header value, the same date digits under another offset, a name listed twice in SignedHeaders, a second Authorization/token/Content-Type header.",
+            rule: "seeded runs of the delivery world: 1-4 clients sign 1-4 requests (both carriers, S3/fold, tokens), each delivery receives 0-2 logical transformations from the full adversarial list (method/path/query/header/body/date/credential/signature/splice), replay, mis-delivery, key rotation at the key store and benign respelling; a case is non-trivial when at least one fault fired; distinct = distinct hash of (transformation kinds, reference verdict, library outcome kind, carrier, node options) per run. Since round 3/4 of the seeded changes the adversarial list also has method letter case, space→tab in a header value, the same date digits under another offset, a name listed twice in SignedHeaders, a second Authorization/token/Content-Type header.",
             quick_runs: 104000,
             thorough_runs: 1248000,
             real: REAL_COMMON,
@@ -320,7 +320,7 @@ pub fn registry() -> Vec<Profile> {
             title: "credential scope",
             run: run_c03,
             required: &["scope_arity", "scope_mismatch", "scope_near_miss_region", "scope_near_miss_service", "provider_query_checked", "misroute", "t_day_rollover"],
-            rule: "mis-delivery among 1-3 nodes with near-miss (prefix/suffix/case/empty) regions and services, credential field tampering, arity faults (0,1,4,6 parts, trailing slash), signing around UTC midnight; the key store records every query; non-trivial when a fault fired Arity faults come in twelve shapes (0/1/4/6 parts, trailing or doubled slash, six parts whose last four or first five are right, a slash spelled %2F, 256 extra empty parts), access keys may look like escapes or be shorter than four bytes, the terminator may carry a no-break-space byte.",
+            rule: "mis-delivery among 1-3 nodes with near-miss (prefix/suffix/case/empty) regions and services, credential field tampering, arity faults (0,1,4,6 parts, trailing slash), signing around UTC midnight; the key store records every query; non-trivial when a fault fired. Arity faults come in twelve shapes (0/1/4/6 parts, trailing or doubled slash, six parts whose last four or first five are right, a slash spelled %2F, 256 extra empty parts), access keys may look like escapes or be shorter than four bytes, the terminator may carry a no-break-space byte.",
             quick_runs: 88000,
             thorough_runs: 1056000,
             real: REAL_COMMON,
@@ -334,7 +334,7 @@ pub fn registry() -> Vec<Profile> {
             title: "freshness",
             run: run_c04,
             required: &["t_eq_lower", "t_eq_upper", "t_upper_plus_1ns", "t_lower_minus_1ns", "t_subsecond", "refused_expired", "refused_not_yet_valid", "inside_window_reached"],
-            rule: "request instant minus server instant drawn boundary-biased (exact bounds, ±1 ns, ±1 ms, ±1 s, uniform in ±20 min, hours/days out) at 16 epochs (midnight, month/year ends, leap days, 1970, years 1/999/9999), client renders its clock in every admissible ISO-8601 form; replays arrive later; non-trivial when the delivery lies outside the window or exactly on/next to a bound Offsets also reach ±9000 years; the key store may be slow, unready or down (a stale request's answer does not depend on it; `refused-before-key-lookup` counts readiness polls too); a refused in-window request is re-run with the clock at its instant (clock twin) and re-stamped in basic form with Z and signed anew (text twin) to tell whether the clock or the date's textual form decided.",
+            rule: "request instant minus server instant drawn boundary-biased (exact bounds, ±1 ns, ±1 ms, ±1 s, uniform in ±20 min, hours/days out) at 16 epochs (midnight, month/year ends, leap days, 1970, years 1/999/9999), client renders its clock in every admissible ISO-8601 form; replays arrive later; non-trivial when the delivery lies outside the window or exactly on/next to a bound. Offsets also reach ±9000 years; the key store may be slow, unready or down (a stale request's answer does not depend on it; `refused-before-key-lookup` counts readiness polls too); a refused in-window request is re-run with the clock at its instant (clock twin) and re-stamped in basic form with Z and signed anew (text twin) to tell whether the clock or the date's textual form decided.",
             quick_runs: 168000,
             thorough_runs: 2016000,
             real: REAL_COMMON,
@@ -348,7 +348,7 @@ pub fn registry() -> Vec<Profile> {
             title: "mandatory signed headers",
             run: run_c05,
             required: &["requirement_refusal_expected", "requirements_satisfied_case", "req_vec_impl", "req_slice_impl", "req[inject-required-header]", "req[unsign-required]", "req[unsign-host]", "req[signed-name-case]"],
-            rule: "nodes with random requirement sets (always/conditional/prefix, random letter case, built through Slice… or Vec… with add/remove histories); faults: an intermediary injects a covered header, the client under-signs (signature over what it did sign stays correct), host left unsigned, unsigned header edits; non-trivial when a fault fired Declared names may be prefix-related (x-custom / x-custom-2) and include host itself; faults also: an empty SignedHeaders list, :authority signed in place of a declared Host, another name listed twice while the required one is missing; transit headers (x-amz-cf-id, x-amzn-trace-id).",
+            rule: "nodes with random requirement sets (always/conditional/prefix, random letter case, built through Slice… or Vec… with add/remove histories); faults: an intermediary injects a covered header, the client under-signs (signature over what it did sign stays correct), host left unsigned, unsigned header edits; non-trivial when a fault fired. Declared names may be prefix-related (x-custom / x-custom-2) and include host itself; faults also: an empty SignedHeaders list, :authority signed in place of a declared Host, another name listed twice while the required one is missing; transit headers (x-amz-cf-id, x-amzn-trace-id).",
             quick_runs: 56000,
             thorough_runs: 672000,
             real: REAL_COMMON,
@@ -390,7 +390,7 @@ pub fn registry() -> Vec<Profile> {
             title: "provider protocol",
             run: run_c14,
             required: &["exec_concurrent_tasks", "prov_pending_ge_2", "defective_request_with_provider_watching", "liveness_checked", "prov_keystore_refusal", "control_twin_compared", "body_transport_failed_first", "prov_err[ExpiredToken]", "prov_err[MissingAuthenticationToken]", "prov_foreign[io::Error]", "prov_foreign[String]"],
-            rule: "1-6 concurrent tasks (each a sequence of validations reusing one provider instance; all instances clones of one key store) on the seeded executor; provider readiness/answer pending 0-5 polls with immediate, timer or withheld wake-ups, every SignatureError kind and five foreign error kinds at readiness or answer, key rotation, spurious polls, cancellation at any poll; requests valid or defective at any rule; non-trivial when a provider/executor fault fired; distinct interleavings = distinct hashes of the (task, seam, result) sequence Foreign kinds are eleven now, two of them library-mediated (the key store builds its response through GetSigningKeyResponse::builder() without a key, or constructs KSecretKey from an over-long stored secret, and propagates the library's error); `provider-untouched-by-defective-requests` is judged from the library's side (its own refusal stage) and from the request's side (the reference's first failing rule precedes key lookup and the message as issued is accepted).",
+            rule: "1-6 concurrent tasks (each a sequence of validations reusing one provider instance; all instances clones of one key store) on the seeded executor; provider readiness/answer pending 0-5 polls with immediate, timer or withheld wake-ups, every SignatureError kind and five foreign error kinds at readiness or answer, key rotation, spurious polls, cancellation at any poll; requests valid or defective at any rule; non-trivial when a provider/executor fault fired; distinct interleavings = distinct hashes of the (task, seam, result) sequence. Foreign kinds are eleven now, two of them library-mediated (the key store builds its response through GetSigningKeyResponse::builder() without a key, or constructs KSecretKey from an over-long stored secret, and propagates the library's error); `provider-untouched-by-defective-requests` is judged from the library's side (its own refusal stage) and from the request's side (the reference's first failing rule precedes key lookup and the message as issued is accepted).",
             quick_runs: 46000,
             thorough_runs: 552000,
             real: REAL_COMMON,
